@@ -92,6 +92,22 @@ def total(ctx):
                 ok = True
     r.check(ok, 'text_input parses with tracking enabled', ti, construct=CLS + '.text_input', key='tracking',
             msg='text_input no longer passes tracking=1 to the parser: non-terminal spans are not propagated')
+    # text_input feeds the parser the text it was given (value flow of the input= argument)
+    from .common import resolve_locals
+    tin = repo.nfunc(CLS + '.text_input')
+    tpar = param_names(tin)[0]
+    fed = []
+    for n in ast.walk(tin):
+        if isinstance(n, ast.Call) and call_attr(n) in ('parse', 'input'):
+            for k in n.keywords:
+                if k.arg == 'input':
+                    fed.append(resolve_locals(tin, k.value, pure_only=False))
+            if call_attr(n) == 'input' and n.args:
+                fed.append(resolve_locals(tin, n.args[0], pure_only=False))
+    r.check(bool(fed) and all(isinstance(x, ast.Name) and x.id == tpar for x in fed), 'text_input hands its text to the parser unmodified', tin,
+            construct=CLS + '.text_input', key='input-unmodified',
+            msg='text_input feeds the parser `%s` instead of the text it was given: offsets and the recorded source substring then refer to a '
+                'rewritten copy of the input' % (src(fed[0])[:60] if fed else 'nothing'))
     pf = repo.func('bridgepoint.oal:parse')
     tp_ = param_names(pf, skip_self=False)[0]
     rebound = [n for n in ast.walk(pf) if isinstance(n, (ast.Assign, ast.AugAssign)) and
